@@ -6,7 +6,7 @@ META = {
     "property_id": "C30",
     "level": "model_checking",
     "technique": "TLA+ spec (codec/JumpDest.tla: defining scan, bit-vector fast paths set16/set8/setN as byte or/assign steps, contract-frame + code-hash cache machine) model-checked with TLC; every code of the TLC domain replayed white-box (codeBitmap, validJumpdest) and black-box (EVM JUMP via Call/Create, JumpDestCache cold/warm/fresh); every edge of the cache machine replayed as a path on vm.Contract; recorded random codes validated by JumpDestTrace.tla",
-    "text": "TLC enumerates every bytecode of the bounded domain (all codes up to AlphaLen over STOP/JUMPDEST/PUSH1,2,16,17,24,25,31,32 and schematic codes 5b^a PUSHn 5b^k for all alignments a, push sizes n and tails k<=34 including truncated pushes) and checks on each that the modelled bit-vector algorithm (fast paths with byte assignment) equals the defining left-to-right scan at every position and stays inside its allocation, and that in every reachable state of the frame/cache machine (NewFrame with/without code hash, Jump, Evict) the answer for every position equals the definition and the cached answer equals a fresh analysis. The expected valid/data positions of every code are executed on the real codeBitmap, on Contract.validJumpdest (no hash, hashed cold, hashed warm; LRU and map caches) and by running PUSH1 0 CALLDATALOAD JUMP ++ code in the EVM (shared cache cold/warm, fresh cache) and PUSH2 pos JUMP ++ code as initcode. All edges of a three-code shared-cache machine are replayed as paths on real frames. Random codes up to 300 bytes are recorded and validated by TLC.",
+    "text": "TLC enumerates every bytecode of the bounded domain (all codes up to AlphaLen over STOP/JUMPDEST/PUSH1,2,16,17,24,25,31,32 and schematic codes 5b^a PUSHn 5b^k for all alignments a, push sizes n and tails k<=34 including truncated pushes) and checks on each that the modelled bit-vector algorithm (fast paths with byte assignment) equals the defining left-to-right scan at every position and stays inside its allocation, and that in every reachable state of the frame/cache machine (NewFrame with/without code hash, Jump, Evict) the answer for every position equals the definition and the cached answer equals a fresh analysis. The expected valid/data positions of every code are executed on the real codeBitmap, on Contract.validJumpdest (no hash, hashed cold, hashed warm; LRU and map caches) and by running PUSH1 0 CALLDATALOAD JUMP ++ code in the EVM (shared cache cold/warm, fresh cache) and PUSH2 pos JUMP ++ code as initcode. All edges of a three-code shared-cache machine are replayed as paths on real frames. Random codes up to 300 bytes and push-dense codes of contract/initcode size (8192, 24576, 49152, 65536 bytes) are recorded and validated by TLC (for the large ones the accepted targets through frames and the EVM, by the one-pass form of the definition, ValidSet, which TLC proves equal to the scan on the bounded domain).",
     "note": "Bounded code length/alphabet for the exhaustive part; hash collisions excluded (hash modelled injective); EOF containers not modelled; the black-box oracle (no error = jump taken) is used only on codes whose instruction stream is STOP/JUMPDEST/PUSHn. Unexported functions reached through core/vm/verif_export_codec.go (tag verif, thin wrappers).",
     "design_ref": "3.1 C30",
 }
@@ -34,9 +34,9 @@ def run(ctx):
     ctx.drive(drv, ["-mode", "paths", "-in", ep], name="c30-paths", timeout=T)
     # V: random codes
     tp = os.path.join(ctx.scratch, "trace.ndjson")
-    s, _ = ctx.drive(drv, ["-mode", "record", "-trace", tp, "-n", ctx.pick(150, 2500), "-maxlen", 300], name="c30-record", timeout=T)
+    s, _ = ctx.drive(drv, ["-mode", "record", "-trace", tp, "-n", ctx.pick(150, 2500), "-maxlen", 300, "-big", ctx.pick(3, 8)], name="c30-record", timeout=T)
     ok, consumed, total, r = ctx.validate("codec/JumpDestTrace", tp, ntraces=s["evaluations"], timeout=T)
     if not ok:
         ctx.reject_trace("codec/JumpDestTrace", tp, consumed, r)
-    return ctx.finish(rule="MC/R: all codes of the bounded domain at every position; all edges of the 3-code cache machine; V: random codes <= 300 bytes",
+    return ctx.finish(rule="MC/R: all codes of the bounded domain at every position; all edges of the 3-code cache machine; V: random codes <= 300 bytes and large push-dense codes up to 65536 bytes",
                       assumptions=["code hash injective", "bounded code length and alphabet in the exhaustive part", "legacy (non-EOF) code only"])
